@@ -3,7 +3,7 @@ from common import LEAN_TB
 CHECK = {
     "title": "Locking is a fixpoint of resolution",
     "modules": ["Apko.Proofs.C09", "Apko.Proofs.Lemmas.Lock", "Apko.Proofs.Lemmas.Relock", "Apko.Proofs.Lemmas.RelockInv"],
-    "suites": [("lock", 1200, 30000)],
+    "suites": [("lock", 4000, 40000)],
     "fact_prefixes": ["cli/lock.go", "lock.go", "resolveapk.go"],
     "hashes": {
         "internal/cli/lock.go:LockCmd": "f16eaa10e702cd26",
